@@ -224,7 +224,7 @@ func callMarker(c httpsim.Call) string {
 
 func TestC18(t *testing.T) {
 	c := evid.New("C18")
-	c.Rule = "bulk bodies of 0-8 elements over the four actions plus unknown / wrong-case / empty action strings, well-formed data per action (posting and script mode, account and transaction targets), per-element ik, a generated success/failure pattern with error classes (insufficient funds, validation, not found, internal), continueOnFailure in {absent,true,false,1,TRUE}; side class: one element whose data does not decode. Oracle (positional model): backend calls == executable elements up to and including the first failure (all of them with continue-on-failure), in order, each with its own parameters and ik; exactly one result per processed element, results[i] describing element i; nothing after the first failure; HTTP 400 iff a processed element failed. A second family (25%) serves the bulk through a real Commander over the model store with elements whose outcome is known by construction (funded / unfunded sources, existing / missing revert and metadata targets): besides the positional answer, the persisted log must hold exactly the successful elements, in order. A third family (5%) is concurrent: 2-8 clients send bulks of 1-40 marked elements (10% failing, continue-on-failure drawn) for 1-6 rounds in parallel against one router; every answer must describe its own request position by position, with its own failure signal, and each ledger must have received exactly its own elements in order. Non-trivial = >=3 elements with a failure strictly inside; distinct by (actions, failure pattern, flag)."
+	c.Rule = "bulk bodies of 0-8 elements over the four actions plus unknown / wrong-case / empty action strings, well-formed data per action (posting and script mode, account and transaction targets), per-element ik, a generated success/failure pattern with error classes (insufficient funds, validation, not found, internal), continueOnFailure in {absent,true,false,1,TRUE}; side class: one element whose data does not decode. Oracle (positional model): backend calls == executable elements up to and including the first failure (all of them with continue-on-failure), in order, each with its own parameters and ik; exactly one result per processed element, results[i] describing element i; nothing after the first failure; HTTP 400 iff a processed element failed. A second family (25%) serves the bulk through a real Commander over the model store with elements whose outcome is known by construction (funded / unfunded sources, existing / missing revert and metadata targets): besides the positional answer, the persisted log must hold exactly the successful elements, in order. A fourth family (5%) is scheduled: 2-5 bulk requests are executed, parked between execution and the writing of their response (verifhook point bulk.processed) and answered in a generated order on one processor, each answer judged position by position. A third family (5%) is concurrent: 2-8 clients send bulks of 1-40 marked elements (10% failing, continue-on-failure drawn) for 1-6 rounds in parallel against one router; every answer must describe its own request position by position, with its own failure signal, and each ledger must have received exactly its own elements in order. Non-trivial = >=3 elements with a failure strictly inside; distinct by (actions, failure pattern, flag)."
 	c.Assumptions = []string{"the backend is a recording fake answering from the generated failure pattern; an element with an unknown action cannot be executed and therefore counts as failing"}
 	runProp(t, c, func(rt *rapid.T) {
 		if rapid.IntRange(0, 3).Draw(rt, "realEngine") == 0 {
@@ -233,6 +233,10 @@ func TestC18(t *testing.T) {
 		}
 		if rapid.IntRange(0, 19).Draw(rt, "concurrent") == 0 {
 			c18Concurrent(rt, c)
+			return
+		}
+		if rapid.IntRange(0, 19).Draw(rt, "scheduled") == 0 {
+			c18Scheduled(rt, c)
 			return
 		}
 		n := rapid.IntRange(0, 8).Draw(rt, "n")
